@@ -519,6 +519,10 @@ func (d *Decoder) LoadParityData() error {
 				return nil, err
 			}
 
+			if parityFile.mainPacket == nil {
+				return nil, errors.New("no main packet found in parity file")
+			}
+
 			if d.sliceByteCount != parityFile.mainPacket.sliceByteCount {
 				return nil, errors.New("slice byte count mismatch")
 			}
